@@ -178,6 +178,10 @@ def check_case(case):
     if not (abs(txy[0] - x) <= 1e-6 and abs(txy[1] - y) <= 1e-6):
         out.bad(f"tower local coordinates {txy} differ from the equirectangular formula {(x, y)}")
 
+    import copy
+
+    cfg_before = copy.deepcopy(cfg)
+    flux_before = None if flux is None else flux.copy()
     # every step of the series is run, in order, in this process (state kept between runs must not leak into a
     # later step); the drawn step i is the one whose metadata is examined below
     a = None
@@ -212,6 +216,10 @@ def check_case(case):
             a = aj
     if a["tower_name"] != tw["name"] or tuple(a["tower_xy"]) != txy:
         out.bad(f"result carries tower {a['tower_name']!r} {a['tower_xy']}, expected {tw['name']!r} {txy}")
+    if cfg != cfg_before:
+        out.bad("run_bldfm_single modified the configuration object it was given")
+    if flux is not None and not np.array_equal(flux, flux_before):
+        out.bad("run_bldfm_single modified the surface-flux array it was given")
 
     def g(k, dflt=None):
         return m[k][i] if isinstance(m.get(k), list) else m.get(k, dflt)
